@@ -56,6 +56,8 @@ ResetOutcome(e) ==
                            THEN [why |-> "", T |-> T0, IT |-> InfoTable(T0), R |-> R0, present |-> {}]
                            \* "libmade": the Merkle cell is an earlier proof of the library itself (judged in its own segment)
                            ELSE [why |-> IF Has(e, "libmade") THEN "skip:source-not-well-formed" ELSE "domain:tree"])
+  \* a cut from beneath Merkle cells (pruned branches of masks other than 1, no Merkle cell; cursor walks only)
+  ELSE IF HighViewOK(T0, R0) /\ e.n = 0 /\ ~Has(e, "orig") THEN [why |-> "", T |-> T0, IT |-> InfoTable(T0), R |-> R0, present |-> {}]
   ELSE IF ~SourceOK(T0) THEN [why |-> IF Has(e, "orig") THEN "skip:source-not-well-formed" ELSE "domain:tree"]
   ELSE IF Partial(T0) /\ ~Has(e, "orig") THEN [why |-> "domain:partial-source-without-original"]
   ELSE
